@@ -41,4 +41,12 @@ def scenarios(tier):
                          ("API", "del", "r", None, False), ("SCRIPT", "gcode", "afterPrintDone"),
                          ("SCRIPT", "gcode", "afterPrintPaused"), ("EV", "PRINT_DONE")],
                         max_states=cap))
+    # every way a job can stop (ninth wave, w9c15: one of the five end events no longer ends the job) and the events that
+    # must not stop it, around an open episode
+    out.append(Scenario("c15-end-events", World, cfg,
+                        [("TRAVEL", "I1"), ("TRAVEL", "O2"), ("PRINT", "I2"), ("SCRIPT", "gcode", "afterPrintDone"),
+                         ("EV", "PRINT_DONE"), ("EV", "PRINT_FAILED"), ("EV", "PRINT_CANCELLING"), ("EV", "PRINT_CANCELLED"),
+                         ("EV", "ERROR"), ("EV", "PRINT_PAUSED"), ("EV", "PRINT_RESUMED"), ("NEWPRINT",)],
+                        max_states=cap, note="each of the five job-ending events, and pause/resume, with an episode open "
+                                             "or closed, followed by the hook"))
     return out
